@@ -104,7 +104,10 @@ def solve_campaign(ctx, n_systems, gen_kw=None, case_kw=None, filt=None, variant
                 res.mc_failures.append("MCSkel: " + scnt["out"][scnt["out"].find("Error:"):][:3000])
             else:
                 raise tlc.TLCError(scnt["out"][-2000:])
-        picked = _sk.pick(sstates, rng, skel, skel_want)
+        wants = skel_want if isinstance(skel_want, (list, tuple)) else [skel_want]
+        picked = []
+        for w in wants:           # several predicates: an equal share of the instantiated states for each
+            picked += _sk.pick(sstates, rng, max(1, skel // len(wants)), w)
         for st in picked:
             g = gen.Gen(rng, **dict(gen_kw or {}, zero_src=0.0))
             try:
@@ -363,8 +366,9 @@ def run_c05(ctx):
                 "systems with a PMux (1-4 inputs, fed from sources / components / the same source, scalar and per-input rs, "
                 "0 V and phase-inactive inputs); mux rows are held to the C05 clauses",
                 gen_kw=dict(neg=0.15, zero_src=0.3, tables=0.2), case_kw=std_case_kw, filt=has_mux, matrix=(200, 2000),
-                skel=(200, 12000), skel_big=True,
-                skel_want=lambda S: any(c["cls"] == "PMux" and len(S["par"][n]) > 1 for n, c in S["comps"].items()))
+                skel=(240, 12000), skel_big=True,
+                skel_want=[lambda S: any(c["cls"] == "PMux" and len(S["par"][n]) > 1 for n, c in S["comps"].items()),
+                           _regulated_input_of_other_source])
 
 
 def has_phases(sysst):
@@ -403,6 +407,21 @@ def _two_sources_joined(S):
     return mux or (hash(json.dumps(S, sort_keys=True, default=str)) % 4 == 0)
 
 
+def _regulated_input_of_other_source(S):
+    """a mux whose FIRST input is a switchable element (regulator) that hangs on one source while a later input comes
+    from another source: the attribution of the mux subtree depends on whether the first input delivers anything"""
+    def root(n):
+        while S["par"][n]:
+            n = S["par"][n][0]
+        return n
+    for m, c in S["comps"].items():
+        ins = S["par"][m]
+        if c["cls"] == "PMux" and len(ins) > 1 and S["comps"][ins[0]]["cls"] == "Converter":
+            if any(root(x) != root(ins[0]) for x in ins[1:]):
+                return True
+    return False
+
+
 def c07_post(s, cases, rng):
     """one phase solved on its own with energy=True: its 24 h energy is still power x the phase's share of the whole
     cycle (all declared phases), and Domain / Subsystem / total rows obey the same relations"""
@@ -419,7 +438,7 @@ def run_c07(ctx):
                 "Domain column, Subsystem, System total, System average and energy cells are recomputed from the component rows",
                 gen_kw=dict(neg=0.15, zero_src=0.15, tables=0.1),
                 case_kw=lambda rng, s: dict(ta=25.0, energy=rng.random() < 0.7, rail_rep=False), post=c07_post,
-                skel=(200, 8000), skel_big=True, skel_want=_two_sources_joined)
+                skel=(240, 8000), skel_big=True, skel_want=[_two_sources_joined, _regulated_input_of_other_source])
 
 
 def has_rails(sysst):
